@@ -453,6 +453,12 @@ def gen_seq(rng, size='small', names=None, indexing='pos', disciplined=True):
                 elif rng.random() < 0.35:
                     # a slot naming a core twice: the check of allocate_slot has to count both entries
                     sd[0].append([rng.choice(cs), rng.choice([UNIT, 24, 32, 40])])
+                if nd['gpus'] and rng.random() < 0.5:
+                    # ... and GPUs, once or twice
+                    g = rng.randrange(len(nd['gpus']))
+                    sd[1] = [[g, rng.choice([UNIT, 32, 40])]]
+                    if rng.random() < 0.5:
+                        sd[1].append([g, rng.choice([24, 32, 40])])
                 ops.append(['nalloc', k, sd])
                 free_refs.append(('n', k, len(ops) - 1, 0))
             else:
@@ -672,8 +678,32 @@ class AppSlots(Prop):
                     out.append(json.load(open(os.path.join(d, f)))['case'])
         return out
 
+    @staticmethod
+    def alloc_family():
+        """Node.allocate_slot(_check=True) with application-made slots: one or two entries for the same or for two
+        cores / GPUs, on a free node and on one that already holds 32/64 there, with and without a later release"""
+        shares = [UNIT, 24, 32, 40, 64]
+        for res in ('cores', 'gpus'):
+            for pre in (False, True):
+                for a in shares:
+                    for b in [None] + shares:
+                        for same in ((True,) if b is None else (True, False)):
+                            ent = [[0, a]] + ([] if b is None else [[0 if same else 1, b]])
+                            sd = [ent, [], 0, 0, 0, 'node0'] if res == 'cores' else [[[1, UNIT]], ent, 0, 0, 0, 'node0']
+                            ops = []
+                            if pre:
+                                ops.append(['nalloc', 0, [[[0, 32]], [], 0, 0, 0, 'node0'] if res == 'cores'
+                                            else [[], [[0, 32]], 0, 0, 0, 'node0']])
+                            ops.append(['nalloc', 0, sd])
+                            ops.append(['nfind', 0, [1, 32, 1, 32, 0, 0, False]])
+                            yield {'kind': 'seq', 'nodes': plain_nodes(1, 2, 2, 100, 0), 'verify': True, 'ops': ops,
+                                   'disciplined': True, 'indexing': 'pos'}
+
     def cases(self, rng, tier):
         quick = tier == 'quick'
+        fam = list(self.alloc_family())
+        for c in (rng.sample(fam, 60) if quick else fam):
+            yield c
         for c in FIXED_SEQ:
             yield dict(c, kind='seq', verify=True, disciplined=True, indexing='pos')
             yield dict(c, kind='seq', verify=False, disciplined=True, indexing='pos')
